@@ -36,6 +36,8 @@ func main() {
 		cmdLibReplay(os.Args[2:])
 	case "expr-replay":
 		cmdExprReplay(os.Args[2:])
+	case "conc-replay":
+		cmdConcReplay(os.Args[2:])
 	case "gram-replay":
 		cmdGramReplay(os.Args[2:])
 	case "json-replay":
